@@ -1,5 +1,4 @@
-import NeumannModel.Graph.Batch
-import NeumannModel.Graph.Query
+import NeumannModel.Graph.Spec
 import NeumannModel.Graph.ConcOps
 import NeumannModel.Graph.Atomic
 /-
@@ -16,7 +15,10 @@ def twoNodesEdgeS : St := applyAll St.empty [.createNode 0 0, .createNode 0 0, .
 /-- `Inv s` = `WF s.kv` + ids above the counters are unused + an existing node has both list keys.
     The empty store satisfies it; every operation preserves it, so it holds after EVERY sequence of
     create/delete/update operations (self-loops, parallel and undirected edges, unknown ids,
-    any iteration order of `delete_node`'s edge set, both of its code paths). -/
+    any iteration order of `delete_node`'s edge set, both of its code paths; `add_label`,
+    `remove_label`; the batch calls `batch_create_nodes`, `batch_create_edges`, `batch_delete_edges`,
+    `batch_delete_nodes`, `batch_update_nodes` with any inputs, empty, repeated and unknown ids
+    included). -/
 theorem wf_preserved (ops : List Op) (s : St) (h : Inv s) :
     Inv (applyAll s ops) ∧ WF (applyAll s ops).kv :=
   ⟨inv_applyAll ops s h, (inv_applyAll ops s h).wf⟩
@@ -96,6 +98,213 @@ theorem degree_spec (m : KV) (h : WF m) (n : Nat) (hn : nodeEx m n = true) (lo l
 example : WF twoNodesEdgeS.kv ∧ neighbors twoNodesEdgeS.kv 1 .outgoing none = some [2] ∧
     degree twoNodesEdgeS.kv 1 = some 1 :=
   ⟨wf_of_any_history _, by decide, by decide⟩
+
+
+/-! ### sequential: batch calls, re-opening -/
+
+/-- Every batch call either does NOTHING (its validation phase failed: an endpoint of some input of
+    `batch_create_edges` / a node of `batch_update_nodes` does not exist — checked for all inputs
+    before the first write) or leaves exactly the store AND the id counters that the sequence of
+    single operations `op.expand` leaves: ids come out of one block of the counter, the same ids the
+    single calls would have been given; `batch_delete_*` go on after a failed item. -/
+theorem batch_is_sequence_or_nothing (s : St) (op : Op) :
+    (apply s op).2 = if op.batchValid s.kv then applyAll s op.expand else s :=
+  batch_seq s op
+
+example : (apply twoNodesEdgeS (.batchCreateEdges [⟨1, 2, false, 0, 0⟩, ⟨2, 2, true, 1, 1⟩])).2 =
+    applyAll twoNodesEdgeS [.createEdge 1 2 false 0 0, .createEdge 2 2 true 1 1] :=
+  batch_is_sequence_or_nothing _ _
+
+/-- a missing endpoint anywhere in the input fails `batch_create_edges` as a whole -/
+example : (apply twoNodesEdgeS (.batchCreateEdges [⟨1, 2, false, 0, 0⟩, ⟨2, 7, true, 1, 1⟩])) =
+    (.batchInvalid 1 7, twoNodesEdgeS) := by
+  have h := batch_is_sequence_or_nothing twoNodesEdgeS (.batchCreateEdges [⟨1, 2, false, 0, 0⟩, ⟨2, 7, true, 1, 1⟩])
+  have hv : (Op.batchCreateEdges [⟨1, 2, false, 0, 0⟩, ⟨2, 7, true, 1, 1⟩]).batchValid twoNodesEdgeS.kv = false := by decide
+  rw [hv] at h
+  refine Prod.ext ?_ h
+  decide
+
+/-- what `batch_create_edges` answers: the block of fresh ids, or the first missing endpoint -/
+theorem batch_create_edges_result (s : St) (items : List EdgeIn) :
+    (endpointsExist s.kv items = true ∧
+      (apply s (.batchCreateEdges items)).1 = .ids (if items.isEmpty then 0 else s.ne + 1) items.length) ∨
+    (endpointsExist s.kv items = false ∧ ∃ i n, (apply s (.batchCreateEdges items)).1 = .batchInvalid i n ∧
+      nodeEx s.kv n = false) :=
+  batchCreateEdges_res s items
+
+/-- Re-opening (`GraphEngine::with_store` over the same store: the counters are re-derived as the
+    largest stored node / edge id) keeps the invariant, so structural well-formedness holds after
+    every session of operations and re-openings: a fresh id never collides with stored data, although
+    ids of deleted nodes / edges above the largest live one ARE handed out again. -/
+theorem wf_preserved_across_reopen (cs : List Cmd) (s : St) (h : Inv s) :
+    Inv (applyCmds s cs) ∧ WF (applyCmds s cs).kv :=
+  ⟨inv_applyCmds cs s h, (inv_applyCmds cs s h).wf⟩
+
+/-- non-vacuity: node 3 is deleted, the engine re-opened, the id 3 handed out again and used -/
+example : (applyCmds St.empty [.op (.createNode 0 0), .op (.createNode 0 0), .op (.createNode 0 0),
+      .op (.createEdge 1 3 false 0 0), .op (.deleteNode 3 []), .reopen, .op (.createNode 1 1),
+      .op (.createEdge 3 1 true 0 0)]).nn = 3 ∧
+    WF (applyCmds St.empty [.op (.createNode 0 0), .op (.createNode 0 0), .op (.createNode 0 0),
+      .op (.createEdge 1 3 false 0 0), .op (.deleteNode 3 []), .reopen, .op (.createNode 1 1),
+      .op (.createEdge 3 1 true 0 0)]).kv :=
+  ⟨by decide, (wf_preserved_across_reopen _ _ inv_empty).2⟩
+
+/-- nodes 1, 2, edge 1 : 1→2, but a node counter that is one too small -/
+def staleCounter : St := { twoNodesEdgeS with nn := 1 }
+
+/-- why the counters must cover every stored id (`Inv.freshN`): with a counter one below the largest
+    stored node id, `create_node` re-initialises the adjacency lists of the existing node 2 and
+    edge 1 is no longer listed by its target -/
+theorem reopen_counter_below_stored_id_witness :
+    WF staleCounter.kv ∧ ¬ WF (apply staleCounter (.createNode 0 0)).2.kv := by
+  refine ⟨wf_of_any_history _, ?_⟩
+  intro hw
+  have h1 := (hw.edge_listed 1 ⟨1, 2, true, 0, 0⟩ (by decide)).2.2.2.1
+  exact absurd h1 (by decide)
+
+/-! ### sequential: what each single operation does to the graph -/
+
+/-- `create_edge(a, b)` with both endpoints present answers the next edge id and adds exactly that
+    edge record; no other edge, no node changes (with `wf_preserved`: the new edge is listed by both
+    endpoints in the right lists and nothing else moved). -/
+theorem create_edge_spec (s : St) (a b : Nat) (d : Bool) (ty v : Nat) (h : Inv s)
+    (ha : nodeEx s.kv a = true) (hb : nodeEx s.kv b = true) :
+    (apply s (.createEdge a b d ty v)).1 = .id (s.ne + 1) ∧
+    edgeAt s.kv (s.ne + 1) = none ∧
+    (∀ x, edgeAt (apply s (.createEdge a b d ty v)).2.kv x =
+        if x = s.ne + 1 then some ⟨a, b, d, ty, v⟩ else edgeAt s.kv x) ∧
+    (∀ n, nodeEx (apply s (.createEdge a b d ty v)).2.kv n = nodeEx s.kv n) := by
+  obtain ⟨h1, _, _, h4, h5⟩ := createEdge_ok_views s a b d ty v ha hb
+  exact ⟨h1, h.freshE _ (by omega), h4, h5⟩
+
+/-- `create_edge` with a missing endpoint changes nothing (not even the id counter) -/
+theorem create_edge_missing_node (s : St) (a b : Nat) (d : Bool) (ty v : Nat)
+    (h : nodeEx s.kv a = false ∨ nodeEx s.kv b = false) :
+    apply s (.createEdge a b d ty v) = (.nodeNotFound (if nodeEx s.kv a = false then a else b), s) :=
+  createEdge_missing s a b d ty v h
+
+/-- `delete_edge(e)` of an existing edge succeeds and removes exactly that record -/
+theorem delete_edge_spec (s : St) (e : Nat) (r : EdgeRec) (hr : edgeAt s.kv e = some r) :
+    (apply s (.deleteEdge e)).1 = .ok ∧
+    (∀ x, edgeAt (apply s (.deleteEdge e)).2.kv x = if x = e then none else edgeAt s.kv x) ∧
+    (∀ n, nodeEx (apply s (.deleteEdge e)).2.kv n = nodeEx s.kv n) := by
+  obtain ⟨h1, _, _, h4, h5⟩ := deleteEdge_ok_views s e r hr
+  exact ⟨h1, h4, h5⟩
+
+theorem delete_edge_missing (s : St) (e : Nat) (hr : edgeAt s.kv e = none) :
+    apply s (.deleteEdge e) = (.edgeNotFound e, s) :=
+  deleteEdge_missing s e hr
+
+/-- `create_node` answers the next node id, adds exactly that node, with empty adjacency lists;
+    no edge changes -/
+theorem create_node_spec (s : St) (l v : Nat) (h : Inv s) :
+    (apply s (.createNode l v)).1 = .id (s.nn + 1) ∧
+    (∀ x, edgeAt (apply s (.createNode l v)).2.kv x = edgeAt s.kv x) ∧
+    (∀ n, nodeEx (apply s (.createNode l v)).2.kv n = (nodeEx s.kv n || n == s.nn + 1)) ∧
+    nodeEx s.kv (s.nn + 1) = false ∧
+    outL (apply s (.createNode l v)).2.kv (s.nn + 1) = [] ∧
+    inL (apply s (.createNode l v)).2.kv (s.nn + 1) = [] :=
+  createNode_views s l v h
+
+/-- `update_node`, `add_label`, `remove_label` touch one node record only: every edge record, the
+    set of nodes, every adjacency list and both counters are unchanged -/
+theorem node_update_frame (s : St) (op : Op) (n : Nat) (hop : op.nodeWrite = some n) :
+    (∀ x, edgeAt (apply s op).2.kv x = edgeAt s.kv x) ∧
+    (∀ k, nodeEx (apply s op).2.kv k = nodeEx s.kv k) ∧
+    (∀ k, outL (apply s op).2.kv k = outL s.kv k) ∧ (∀ k, inL (apply s op).2.kv k = inL s.kv k) ∧
+    (apply s op).2.nn = s.nn ∧ (apply s op).2.ne = s.ne :=
+  nodeWrite_views s op n hop
+
+example : (Op.addLabel 1 7).nodeWrite = some 1 := rfl
+
+/-- `update_edge(e)` changes the property of that record only: endpoints, direction and type of
+    every edge, the nodes and the adjacency lists are unchanged -/
+theorem update_edge_spec (s : St) (e v : Nat) :
+    (∀ x, edgeAt (apply s (.updateEdge e v)).2.kv x =
+        if x = e then (edgeAt s.kv e).map (fun r => { r with ver := v }) else edgeAt s.kv x) ∧
+    (∀ k, nodeEx (apply s (.updateEdge e v)).2.kv k = nodeEx s.kv k) ∧
+    (∀ k, outL (apply s (.updateEdge e v)).2.kv k = outL s.kv k) ∧
+    (∀ k, inL (apply s (.updateEdge e v)).2.kv k = inL s.kv k) :=
+  updateEdge_views s e v
+
+/-! ### sequential: more observation points -/
+
+/-- `e` is incident to `n` in direction `dir` (an undirected edge and a self-loop both ways) -/
+def EdgeIncident (m : KV) (n : Nat) (dir : Dir) (e : Nat) : Prop :=
+  ((dir = .outgoing ∨ dir = .both) ∧ OutIncident m n e) ∨ ((dir = .incoming ∨ dir = .both) ∧ InIncident m n e)
+
+/-- `edges_of(n, direction)` returns exactly the existing edges incident to `n` in that direction,
+    each once, with its stored record, ascending by id. -/
+theorem edges_of_spec (m : KV) (h : WF m) (n : Nat) (dir : Dir) (hn : nodeEx m n = true) :
+    ∃ l, edgesOf m n dir = some l ∧ (l.map Prod.fst).Pairwise (· < ·) ∧
+      ∀ e r, (e, r) ∈ l ↔ (edgeAt m e = some r ∧ EdgeIncident m n dir e) := by
+  refine ⟨withRec m (edgesOfIds m n dir), by simp [edgesOf, hn], ?_, ?_⟩
+  · exact List.Pairwise.sublist (withRec_fst_sublist m _) (sorted_sortDedup _)
+  · intro e r
+    rw [mem_withRec, mem_edgesOfIds, mem_outL_iff h, mem_inL_iff h]
+    exact ⟨fun hh => ⟨hh.2, hh.1⟩, fun hh => ⟨hh.2, hh.1⟩⟩
+
+theorem edges_of_missing_node (m : KV) (n : Nat) (dir : Dir) (hn : nodeEx m n = false) :
+    edgesOf m n dir = none := by
+  simp [edgesOf, hn]
+
+example : edgesOf twoNodesEdgeS.kv 2 .incoming = some [(1, ⟨1, 2, true, 0, 0⟩)] ∧
+    edgesOf twoNodesEdgeS.kv 2 .outgoing = some [] := by decide
+
+/-- `edges_of_paginated` is a page of `edges_of`: the items are `edges_of` after dropping `skip` and
+    keeping at most `limit`, the total is its length, `has_more` says whether anything is left. -/
+theorem edges_of_page_spec (m : KV) (h : WF m) (n : Nat) (dir : Dir) (skip : Nat) (limit : Option Nat)
+    (l : List (Nat × EdgeRec)) (hl : edgesOf m n dir = some l) :
+    edgesOfPage m n dir skip limit = some (pageOf l skip limit, l.length, hasMore l.length skip limit) := by
+  unfold edgesOf at hl
+  split at hl
+  · rename_i hn
+    cases hl
+    have hall := edgesOfIds_have_records h (n := n) (dir := dir)
+    have e1 := withRec_eq_map m (edgesOfIds m n dir) hall
+    have e2 := withRec_eq_map m (pageOf (edgesOfIds m n dir) skip limit) (fun e he => hall e (mem_pageOf he))
+    simp only [edgesOfPage, hn, if_true]
+    rw [e2, e1, map_pageOf, List.length_map]
+  · cases hl
+
+example : edgesOfPage twoNodesEdgeS.kv 1 .both 0 (some 0) = some ([], 1, true) := by decide
+
+/-- `out_degree_by_type / in_degree_by_type / degree_by_type` count exactly the existing edges of
+    that type incident to `n` (for ANY duplicate-free enumeration `lo` / `li` of them). -/
+theorem degree_by_type_spec (m : KV) (h : WF m) (n ty : Nat) (hn : nodeEx m n = true) (lo li : List Nat)
+    (hlo : lo.Nodup) (hli : li.Nodup)
+    (ho : ∀ e, e ∈ lo ↔ OutIncidentTy m n ty e) (hi : ∀ e, e ∈ li ↔ InIncidentTy m n ty e) :
+    outDegreeByType m n ty = some lo.length ∧ inDegreeByType m n ty = some li.length ∧
+    degreeByType m n ty = some (lo.length + li.length) := by
+  have e1 : countTy m (outL m n) ty = lo.length := by
+    apply countTy_eq (h.out_nodup n) hlo
+    intro e; rw [ho, mem_outL_iff h]
+    constructor
+    · rintro ⟨r, hr, ht, hc⟩; exact ⟨⟨r, hr, hc⟩, r, hr, ht⟩
+    · rintro ⟨⟨r, hr, hc⟩, r', hr', ht⟩; rw [hr] at hr'; cases hr'; exact ⟨r, hr, ht, hc⟩
+  have e2 : countTy m (inL m n) ty = li.length := by
+    apply countTy_eq (h.in_nodup n) hli
+    intro e; rw [hi, mem_inL_iff h]
+    constructor
+    · rintro ⟨r, hr, ht, hc⟩; exact ⟨⟨r, hr, hc⟩, r, hr, ht⟩
+    · rintro ⟨⟨r, hr, hc⟩, r', hr', ht⟩; rw [hr] at hr'; cases hr'; exact ⟨r, hr, ht, hc⟩
+  simp [outDegreeByType, inDegreeByType, degreeByType, hn, e1, e2]
+
+example : degreeByType twoNodesEdgeS.kv 1 0 = some 1 ∧ degreeByType twoNodesEdgeS.kv 1 1 = some 0 := by decide
+
+/-- `all_edges()` lists exactly the existing edge records, ascending by id; `get_all_node_ids()` /
+    `all_nodes()` exactly the existing nodes, ascending; `node_count()` is their number. -/
+theorem scans_spec (s : St) (h : Inv s) :
+    ((allEdges s).map Prod.fst).Pairwise (· < ·) ∧
+    (∀ e r, (e, r) ∈ allEdges s ↔ edgeAt s.kv e = some r) ∧
+    (allNodeIds s).Pairwise (· < ·) ∧ (∀ n, n ∈ allNodeIds s ↔ nodeEx s.kv n = true) ∧
+    nodeCount s = (allNodeIds s).length :=
+  ⟨List.Pairwise.sublist (withRec_fst_sublist _ _) (range_pairwise_lt _),
+   fun _ _ => mem_allEdges h,
+   List.Pairwise.sublist List.filter_sublist (range_pairwise_lt _),
+   fun _ => mem_allNodeIds h, rfl⟩
+
+example : allEdges twoNodesEdgeS = [(1, ⟨1, 2, true, 0, 0⟩)] ∧ allNodeIds twoNodesEdgeS = [1, 2] := by decide
 
 /-! ### concurrent: the adjacency-list read-modify-write is atomic (list lock, /repo 81b9c5b4) -/
 
